@@ -26,6 +26,11 @@ fn short_loc(file: &str) -> String {
             return rest[q + 1..].to_string();
         }
     }
+    if file.starts_with("/rustc/") {
+        if let Some(p) = file.find("/library/") {
+            return file[p + 1..].to_string();
+        }
+    }
     if let Some(p) = file.find("/rustlib/src/rust/") {
         return file[p + "/rustlib/src/rust/".len()..].to_string();
     }
